@@ -118,7 +118,8 @@ Yields(v, a) ==
 
 (* KeyDeserializer: a String key is parsed for bool / integers / floats, everything else is delegated *)
 KeyYields(v, a) ==
-    IF a.t = "String" /\ v.k \in IntKinds \cup FloatKinds \cup {"bool"}
+    IF v.k = "newtype_struct" /\ NewtypeVisit THEN KeyYields(v.kids[1], a)     \* an alias as key type: visit_newtype_struct(self), still a key
+    ELSE IF a.t = "String" /\ v.k \in IntKinds \cup FloatKinds \cup {"bool"}
     THEN a.s = "text:" \o v.s \/ (v.k \in FloatKinds /\ FloatString(a.s) /\ v.s = FloatOfString(a.s))
     ELSE Yields(v, a)
 
@@ -131,6 +132,7 @@ NonFinite(s) == s \in {"nan", "inf", "ninf"}
 
 RECURSIVE JsonOfVal(_), JsonOfAny(_), KeyTextOfVal(_), KeyTextOfAny(_)
 KeyTextOfVal(v) == CASE v.k \in FloatKinds -> FloatText(v.s)
+                     [] v.k = "newtype_struct" -> KeyTextOfVal(v.kids[1])
                      [] OTHER -> v.s
 JsonOfVal(v) ==
     CASE v.k \in IntKinds -> J("num", v.s, <<>>)
